@@ -28,7 +28,8 @@ RULE = ("case = (number of originators 1..3, circuits 1..6 with hop counts 1..3 
         "time before the attack (5 s or 70 s, i.e. before/after the CreatedRequestCache expiry), explicit attack list: "
         "cell with unknown id, garbage cell on a live id, genuine body of circuit Y under the id of circuit X, create for a "
         "live id in exit_sockets / relay_from_to / circuits, destroy signed by the adversary for any live id, replay of a "
-        "genuine destroy of X towards other nodes / ids). Non-trivial = at least two circuits shared a relay or exit while "
+        "genuine destroy of X towards other nodes / ids, new circuits built while an on-path attacker re-labels plaintext `created` "
+        "answers with the id of an established exit entry of the receiving node). Non-trivial = at least two circuits shared a relay or exit while "
         "carrying data; distinct by (attack kind, table the id lives in, before/after expiry, sharing pattern).")
 COMPONENTS = {"real": ["TunnelCommunity (on_create/on_created/on_extend/on_data/on_destroy/exit_data)", "PythonCryptoEndpoint",
                        "TunnelExitSocket on simulated outside transports", "RequestCache time-outs (CreatedRequestCache 60 s)",
@@ -39,10 +40,11 @@ ASSUMPTIONS = ["entries may disappear through the documented paths only: destroy
                "hidden-service circuits not covered"]
 REACH = ["shared_relay_pairs", "forged_create_live_exit_before_expiry", "forged_create_live_exit_after_expiry",
          "forged_create_live_relay", "forged_destroy_non_neighbour", "forged_destroy_spoofed_source", "replayed_destroy", "cross_circuit_body",
-         "garbage_on_live_id", "unknown_id_cell", "legit_destroy_removed_only_own", "data_delivered"]
+         "garbage_on_live_id", "unknown_id_cell", "legit_destroy_removed_only_own", "data_delivered",
+         "created_relabelled_with_live_exit_id"]
 
 ATTACKS = ["unknown_id", "garbage_live", "cross_body", "create_live", "create_live", "destroy_own_sig", "destroy_replay",
-           "destroy_spoofed_src"]
+           "destroy_spoofed_src", "created_cid_swap"]
 
 
 def cases(tier: str, base_seed: int):  # noqa: ANN201
@@ -93,6 +95,26 @@ def execute(case: dict) -> dict:  # noqa: C901, PLR0915
         if len(pkt.data) > 22 and pkt.data[22] == DestroyPayload.msg_id and pkt.src_node != tw.nodes[-1].name:
             destroys_seen.append(pkt)
     net.on_send.append(on_send)
+    swap = {"on": False, "n": 0}
+
+    def created_filter(pkt):  # noqa: ANN001, ANN202
+        """On-path attacker: a plaintext `created` answer towards a node that holds an established exit entry is re-labelled with
+        that entry's circuit id (the identifier field, which is what the answer is matched by, stays)."""
+        if not swap["on"] or pkt.injected:
+            return None
+        parts = cell_parts(pkt.data)
+        if parts is None or len(pkt.data) < 30 or not pkt.data[27] or pkt.data[29] != 3:
+            return None
+        rcv = tw.node_of_ip(pkt.dst[0])
+        if rcv is None or rcv is tw.nodes[-1]:
+            return None
+        ids = sorted(cid for cid, es in rcv.ov.exit_sockets.items() if cid != parts[0] and es.enabled)
+        if not ids:
+            return None
+        swap["n"] += 1
+        world.probe("created_relabelled_with_live_exit_id")
+        return pkt.data[:23] + ids[swap["n"] % len(ids)].to_bytes(4, "big") + pkt.data[27:]
+    net.filters.append(created_filter)
 
     async def send_round(k: int) -> None:
         for ci in circuits:
@@ -197,6 +219,15 @@ def execute(case: dict) -> dict:  # noqa: C901, PLR0915
                 dh = adv.call(adv.ov.crypto.generate_diffie_secret)
                 adv.call(adv.ov.send_cell, target.address,
                          CreatePayload(cid, rng.randrange(65536), adv.my_peer.public_key.key_to_bin(), dh[1]))
+            elif kind == "created_cid_swap":
+                # new circuits are built through the shared pool while every `created` answer towards a node with an established
+                # exit entry names that entry's id instead of the id the relay chose
+                c.nontrivial(f"created_cid_swap/{after_expiry}")
+                swap["on"] = True
+                for o in tw.nodes[:n_orig]:
+                    o.call(o.ov.create_circuit, 2 + int(pick * 2) % 2)
+                await asyncio.sleep(1.5)
+                swap["on"] = False
             elif kind == "destroy_own_sig":
                 world.probe("forged_destroy_non_neighbour")
                 c.nontrivial(f"destroy_own/{tname}/{after_expiry}")
@@ -253,9 +284,9 @@ def execute(case: dict) -> dict:  # noqa: C901, PLR0915
             if key not in stable:
                 continue
             now = after.get(key)
+            if cid in legit_gone:
+                continue        # torn down by its own originator during the window: the id is free again
             if now is None:
-                if cid in legit_gone:
-                    continue
                 c.violate("tables_unchanged", f"entry_removed_by_forgery:{tname}",
                           f"{node}.{tname}[{cid}] disappeared during the attack window; attacks={[a['kind'] for a in case['attacks']]}")
             elif now[0] is not obj:
@@ -266,7 +297,8 @@ def execute(case: dict) -> dict:  # noqa: C901, PLR0915
             elif now[1] is not keys or now[2] != peer_key:
                 c.violate("tables_unchanged", f"entry_rekeyed:{tname}", f"{node}.{tname}[{cid}] got other keys / peer")
         for key in after:
-            if key not in before and key[2] in {k[2] for k in before}:
+            # (an id that was freed by the legitimate teardown above is free: a create naming it afterwards is a new circuit)
+            if key not in before and key[2] in {k[2] for k in before} and key[2] not in legit_gone:
                 c.violate("tables_unchanged", f"entry_added_for_live_id:{key[1]}", f"{key} appeared during the attack window")
         # ---------------------------------------------------------------- legitimate teardown of one circuit
         alive = [ci for ci in circuits if not ci.get("removed") and ci["circ"].state == "READY"]
